@@ -67,7 +67,7 @@ theorem render_total (source : Text) (position : Nat) :
 theorem index_to_loc_total_iff (body : Text) (p : Nat) : (indexToLoc body p).isSome = true ↔ p ≤ body.length := by
   constructor
   · intro h
-    unfold indexToLoc at h
+    unfold indexToLoc Response.indexToLoc at h
     split at h
     · rename_i hc; simp at hc; omega
     · split at h
@@ -81,6 +81,8 @@ theorem index_to_loc_total_iff (body : Text) (p : Nat) : (indexToLoc body p).isS
 example : highlightLocation [34, 92] 3 = none := by decide
 example : (highlighted [34, 92] 3).isSome = true := by decide
 example : indexToLoc [97, 10, 98] 3 = some (2, 2) := by decide
+/-- fix X4: CRLF is ONE line break, a lone CR is one too -/
+example : indexToLoc [97, 13, 10, 98, 13, 99] 6 = some (3, 2) := by decide
 
 /-! ### the extracted tables denote the specification's character classes
     (re-proved against `Generated/LexTables.lean` on every run) -/
